@@ -8,19 +8,28 @@ from props import c05 as P
 
 
 class Batch:
+    """collects Gallina expressions; expressions added together have one type and are evaluated as lists of
+    GROUP elements per Eval (one printed type per group instead of one per case)"""
+    GROUP = 40
+
     def __init__(self):
-        self.exprs, self.res = [], None
+        self.exprs, self.res, self.spans = [], None, []
 
     def add(self, exprs):
+        chunks = [exprs[i:i + self.GROUP] for i in range(0, len(exprs), self.GROUP)]
         start = len(self.exprs)
-        self.exprs.extend(exprs)
-        return (start, len(self.exprs))
+        self.exprs.extend(oc.coq_list(c) for c in chunks)
+        return (start, len(self.exprs), len(exprs))
 
     def run(self):
-        self.res = vlib.coq_eval(P.IMPORTS, "Open Scope string_scope.", self.exprs, tag="c05", shard=500)
+        self.res = vlib.coq_eval(P.IMPORTS, "Open Scope string_scope.", self.exprs, tag="c05", shard=25)
 
     def get(self, span):
-        return self.res[span[0]:span[1]]
+        out = []
+        for r in self.res[span[0]:span[1]]:
+            out.extend(oc.coq_parse(r))
+        assert len(out) == span[2], (len(out), span)
+        return out
 
 
 def mutate_tokens(rng, toks):
@@ -60,7 +69,7 @@ def parser_phase(chk, hy, impl, batch, sigs, n_mut):
     span = batch.add([P.raw_expr("(parse_ll nat %s)" % oc.coq_list([P.tok_coq(t) for t in toks])) for _, toks, _ in cases])
     yield
     for (kind, toks, ok), r in zip(cases, batch.get(span)):
-        model = P.canon_raw_model(oc.coq_parse(r))
+        model = P.canon_raw_model(r)
         real = impl.parse(toks, ok)
         chk.count("parser:" + kind + (":accepted" if real is not None else ":rejected"))
         if model != real:
@@ -73,7 +82,7 @@ def compile_phase(chk, hy, impl, batch, sigs, results):
     span = batch.add([P.args_expr(s.coq_raw()) for s in sigs])
     yield
     for s, r in zip(sigs, batch.get(span)):
-        model = P.canon_args_model(oc.coq_parse(r))
+        model = P.canon_args_model(r)
         st = results.get(s.key()) or impl.compile_fn(s.tokens())
         results[s.key()] = st
         if st[0] == "ok":
@@ -147,7 +156,7 @@ def pybind_phase(chk, hy, impl, batch, n_sigs, n_calls, max_params, max_args):
     span = batch.add(["(py_bind nat nat %s %s)" % (arguments_coq(a), P.call_coq(pos, kw)) for a, f, pos, kw in cases])
     yield
     for (a, f, pos, kw), r in zip(cases, batch.get(span)):
-        model = P.canon_model_bres(oc.coq_parse(r))
+        model = P.canon_model_bres(r)
         real = P.run_call(f, pos, kw)
         chk.count("py_bind-vs-cpython:" + ("bound" if real != "TypeErr" else "typeerror"))
         if model != real:
@@ -182,11 +191,11 @@ def binding_phase(chk, hy, impl, batch, sigs, results, n_calls, max_args, exhaus
     yield
     res = batch.get(span)
     for i, (s, hf, pyf, pos, kw) in enumerate(cases):
-        m_ref = P.canon_model_bres(oc.coq_parse(res[2 * i]))
-        m_py = P.canon_model_bres(oc.coq_parse(res[2 * i + 1]))
+        m_ref = P.canon_model_bres(res[2 * i])
+        m_py = P.canon_model_bres(res[2 * i + 1])
         r_hy = P.run_call(hf, pos, kw)
         r_py = P.run_call(pyf, pos, kw)
-        desc = {"lambda_list": "[%s]" % " ".join(hy.repr(x) for x in impl.ll_model(s.tokens())),
+        desc = {"lambda_list": "[%s]" % " ".join(hy.repr(x).lstrip("'") for x in impl.ll_model(s.tokens())),
                 "python_def": "def f(%s)" % s.python(), "positional": pos, "keywords": kw}
         chk.count("binding:" + ("bound" if r_py != "TypeErr" else "typeerror"))
         chk.case((s.key(), tuple(pos), tuple(kw)), nontrivial=bool(s.names()) and (bool(pos) or bool(kw)),
@@ -223,15 +232,20 @@ def rejects_phase(chk, hy, impl, batch, sigs, results):
             py_rejects = False
         except SyntaxError:
             py_rejects = True
-        model = oc.coq_parse(r) == "true"
+        model = r == "true"
         chk.count("rejects:" + ("python-rejects" if py_rejects else "python-accepts"))
         chk.case(("rejects", s.key()), nontrivial=py_rejects)
         if not dup and model != py_rejects:
             chk.disagree("LambdaList.py_def_rejects vs CPython's compile() of the equivalent def", s.python(),
                          repr(model), repr(py_rejects))
         hy_rejects = st[0] in ("syntax", "pysyntax")
+        if st[0] == "crash":
+            chk.fail("function-creation", {"lambda_list": "[%s]" % " ".join(hy.repr(x).lstrip("'") for x in impl.ll_model(s.tokens())),
+                                           "python_def": "def f(%s)" % s.python()}, st[1],
+                     "a function, or a Hy syntax error", "hy.eval of (fn [...] 1)")
+            continue
         if hy_rejects != py_rejects:
-            chk.fail("rejects", {"lambda_list": "[%s]" % " ".join(hy.repr(x) for x in impl.ll_model(s.tokens())),
+            chk.fail("rejects", {"lambda_list": "[%s]" % " ".join(hy.repr(x).lstrip("'") for x in impl.ll_model(s.tokens())),
                                  "python_def": "def f(%s)" % s.python()},
                      "Hy: " + ("syntax error (%s)" % st[1] if hy_rejects else "accepted"),
                      "Python: " + ("SyntaxError" if py_rejects else "accepted"), "hy.eval of (fn [...] 1)")
@@ -334,7 +348,7 @@ def collect_phase(chk, hy, impl, batch, n_forms, max_items):
         elif tail == "keyword-as-value":
             hy_src = hy_src[:-1] + " :z :w)"
             py_src = py_src[:-1] + (", " if py_src != "g()" else "") + "z=hy.models.Keyword('w'))"
-        model = oc.coq_parse(r)
+        model = r
         # implementation: the Call node
         try:
             tree = hy_compile(hy.read_many(hy_src), impl.mod, import_stdlib=False)
@@ -397,7 +411,7 @@ def outcome(f):
 BODY_FORMS = [
     # (source, kind)   kind: 'strlit' = a string literal; anything else is not
     ('"doc one"', "strlit"), ('"two"', "strlit"), ('#[[bracket doc]]', "strlit"),
-    ('(do "from do")', "form"), ('(do (do "nested do"))', "form"), ('(if True "then" "else")', "form"),
+    ('(do "from do")', "form"), ('(do "inner stmt" 1)', "form"), ("(do)", "form"), ('(do (do "nested do"))', "form"), ('(if True "then" "else")', "form"),
     ('f"fstring {1}"', "form"), ('b"bytes"', "form"), ("1", "form"), ("None", "form"), ("y", "form"),
     ("(setv y 7)", "form"), ("(do (setv y 8) y)", "form"), ('(do (setv y 9) "after stmts")', "form"),
     ("(+ y 1)", "form"), ("(if y (setv z 1) (setv z 2))", "form"), ("(try 1 (except [Exception] 2))", "form"),
@@ -490,7 +504,7 @@ def body_phase(chk, hy, impl, batch, n_bodies, max_forms):
     yield
     for (body, kind), per_form, r in zip(cases, infos, batch.get(span)):
         src = " ".join(s for s, _ in body)
-        model = oc.coq_parse(r)
+        model = r
         _, m_body, m_doc, m_rule = model
         text = "(defn f [] %s)" % src if kind == "defn" else "(setv f (fn [] %s))" % src
         try:
@@ -518,9 +532,10 @@ def body_phase(chk, hy, impl, batch, n_bodies, max_forms):
         if doc != want:
             first = body[0] if body else None
             desc = {"form": text, "first_form": first[0] if first else None}
-            if first is not None and first[1] != "strlit" and len(body) >= 2 and per_form[0][1] == [] \
-                    and per_form[0][2] != "None" and per_form[0][2][1][0] == "EStr" and doc == per_form[0][2][1][1][1]:
-                desc["class"] = "first-form-compiles-to-string-constant"
+            if first is not None and first[1] != "strlit" and want is None and isinstance(doc, str):
+                # the rule gives no docstring (the first form is not a string literal), yet the first
+                # statement the body emits is a bare string constant, which Python takes as the docstring
+                desc["class"] = "docstring-from-non-literal-first-form"
             chk.fail("docstring", desc, repr(doc), repr(want), "f.__doc__ after hy.eval of the form")
         # implicit return of the last form: the same body with an explicit (return <last form>)
         if body:
